@@ -368,4 +368,42 @@ def render (U : Universe) (g : RG) : Option String :=
   | some a, some b => some ("".intercalate ((a ++ b).map (· ++ "\n")))
   | _, _ => none
 
+/-! ### `ConflictGraph::graphviz` (with `simplify = true`) -/
+
+def graphviz (U : Universe) (g : RG) : String :=
+  let merged := simplify U g
+  let body := (List.range g.nodes.size).foldl (fun (acc : String) nx =>
+    let node := g.node nx
+    let isSolvNode := match node with | .root => true | .solv _ => true | _ => false
+    let skip := match node with
+      | .solv s => (match merged.lookup s with | some ids => ids.head? != some s | none => false)
+      | _ => false
+    if !isSolvNode || skip then acc
+    else
+      let idStr := match node with | .solv s => toString s | _ => "root"
+      ((g.out nx).foldl (fun (st : String × List Nat) e =>
+        let (acc, added) := st
+        let target := g.node (g.dst e)
+        let color := match g.kind e with
+          | .req _ => if target != Node.unresolved then "black" else "red"
+          | _ => "red"
+        let label := match g.kind e with
+          | .req r => reqStr U r
+          | .constrains v => s!"vs{v}"
+          | .forbid => "already installed"
+          | .locked _ => "already installed"
+          | .excluded => "excluded"
+        let line (t : String) := s!"\"{idStr}\" -> \"{t}\"[color={color}, label=\"{label}\"];"
+        match target with
+        | .solv s2 =>
+          (match merged.lookup s2 with
+           | some ids =>
+             let first := ids.headD s2
+             if added.contains first then (acc, added) else (acc ++ line (toString first), first :: added)
+           | none => (acc ++ line (toString s2), added))
+        | .root => (acc ++ line "root", added)
+        | .unresolved => (acc ++ line "unresolved", added)
+        | .excl r => (acc ++ line s!"reason: str{r}", added)) (acc, [])).1) ""
+  "digraph {" ++ body ++ "}"
+
 end Resolvo.Render
